@@ -104,6 +104,60 @@ def r_str(x, n=None):
     return x if isinstance(x, str) and (n is None or len(x) == n) else describe(x)
 
 
+def part_tall(ctx, pt):
+    """STACK HEIGHTS as a class: bsp with very many operators on one or both sides (all Paulis of a few qubits, long
+    syndrome tables, n_k_d searches) - heights around every power of two from 2^6 to 2^14 and odd heights in between, so
+    that any internal blocking / chunking boundary falls inside some stack.  Ground truth is independent of numpy:
+    operators as Python integers, anticommute iff popcount(ax & bz) + popcount(az & bx) is odd.  Every entry of the
+    matrix forms is judged; the rows next to the block boundaries and the last rows also go through the Lean model."""
+    rng = ctx.rng
+    heights = [63, 65, 255, 257, 1023, 1025, 2047, 2049, 4095, 4097, 4133, 8191, 8193, 12345, 16383, 16385]
+    if not ctx.quick():
+        heights += [20011, 32767, 32769, 65537]
+    for m in heights:
+        n = rng.choice([3, 5, 6, 7])
+        k = rng.choice([1, 2, 5])
+        A = np.array([[rng.randint(0, 1) for _ in range(2 * n)] for _ in range(m)], dtype=rng.choice([int, np.int8, np.uint8]))
+        A[-1, :] = 0; A[-1, 0] = 1                       # the last operator is X on qubit 0 …
+        B = np.array([[rng.randint(0, 1) for _ in range(2 * n)] for _ in range(k)], dtype=int)
+        B[0, :] = 0; B[0, n] = 1                         # … and the first on the other side Z on qubit 0
+        def asint(row, lo, hi):
+            return int(''.join(str(int(x)) for x in row[lo:hi]), 2)
+        ax = [asint(r, 0, n) for r in A]; az = [asint(r, n, 2 * n) for r in A]
+        bx = [asint(r, 0, n) for r in B]; bz = [asint(r, n, 2 * n) for r in B]
+        want = np.array([[(bin(ax[i] & bz[j]).count('1') + bin(az[i] & bx[j]).count('1')) % 2 for j in range(k)]
+                         for i in range(m)])
+        forms = [('matrix.matrix', lambda: pt.bsp(A, B.T), want),
+                 ('matrix.vector', lambda: pt.bsp(A, B[0]), want[:, 0]),
+                 ('vector.matrix', lambda: pt.bsp(B[0], A.T), want[:, 0]),
+                 ('matrix.matrix (tall on the right)', lambda: pt.bsp(B, A.T), want.T)]
+        for name, f, w in forms:
+            ctx.evaluations += 1
+            ctx.count('tall_bsp_height', m)
+            try:
+                got = f()
+            except Exception as ex:   # noqa: BLE001
+                ctx.monitor_fail('bsp raised {!r} on a tall stack'.format(ex)[:200], {'form': name, 'height': m, 'n': n},
+                                 key='bsp:tall:raises')
+                continue
+            if not (isinstance(got, np.ndarray) and got.shape == w.shape and np.array_equal(got, w)):
+                bad = None
+                if isinstance(got, np.ndarray) and got.shape == w.shape:
+                    idx = np.argwhere(got != w)[0]
+                    i = int(idx[0]) if name != 'matrix.matrix (tall on the right)' else int(idx[-1])
+                    bad = {'operator_index': i, 'a': bits(A[i]), 'b': mat(B), 'got_row': str(got[tuple(idx)]),
+                           'expected': str(w[tuple(idx)]), 'vector_form': r_int(pt.bsp(A[i], B[0]))}
+                ctx.monitor_fail('bsp ({} form) on a stack of {} operators disagrees with the Pauli-group commutation of '
+                                 'the individual operators (and with the vector form)'.format(name, m),
+                                 {'form': name, 'height': m, 'n': n, 'first_bad': bad or describe(got)}, key='bsp:tall')
+        # model tie on the rows next to power-of-two boundaries and the tail
+        res = pt.bsp(A, B.T)
+        if isinstance(res, np.ndarray) and res.shape == (m, k):
+            rows = sorted(set([0, m - 1, m - 2] + [r for b in (64, 256, 1024, 4096, 8192, 16384) for r in (b - 1, b, b + 1)
+                                                   if r < m]))
+            ctx.case('c09 bspmat {} {}'.format(mat(A[rows]), mat(B)), r_mat(res[rows], (len(rows), k)))
+
+
 def run(ctx):
     from qecsim import paulitools as pt
     rng = ctx.rng
@@ -252,6 +306,7 @@ def run(ctx):
                 ctx.monitor_fail('bsf_wt of X^n is not n', {'n': n, 'dtype': np.dtype(dt).name,
                                                             'got': r_int(pt.bsf_wt(a))})
             del a, b
+    part_tall(ctx, pt)
     part_longpack(ctx, pt)
     part_stackings(ctx, pt)
     part_purity(ctx, pt)
